@@ -1084,7 +1084,7 @@ def ob_endianness_args(ctx, res):
                     good = "endianness" in o
                     if re.fullmatch(r"p\d+", o) and "Endianness" in fn.params[int(o[1:])][1]:
                         good = True
-                    if "Endianness::" in o and ("match(" in o or "if(" in o) and "magic" in o:
+                    if "Endianness::" in o and ("match(" in o or "if(" in o):
                         good = True       # the byte order detected from the file's magic (C10-T1 decides that dispatch)
                     n += 1
                     if good:
